@@ -336,12 +336,12 @@ class BitSet(BaseBitSet):
         if newlength > curlength:
             self.bits.extend((0,) * (newlength - curlength))
         elif newlength < curlength:
-            del self.bits[newlength + 1:]
+            del self.bits[newlength:]
 
     def _zero_extra_bits(self, size):
         bits = self.bits
         spill = size - ((len(bits) - 1) * 8)
-        if spill:
+        if bits and 0 <= spill < 8:
             mask = 2 ** spill - 1
             bits[-1] = bits[-1] & mask
 
@@ -418,6 +418,8 @@ class BitSet(BaseBitSet):
             discard(n)
 
     def invert_update(self, size):
+        # Make the bit array exactly as long as needed to hold ``size`` bits
+        self._resize(size)
         bits = self.bits
         for i in xrange(len(bits)):
             bits[i] = ~bits[i] & 0xFF
